@@ -109,6 +109,7 @@ def run(ctx, built):
     SS.stream_stitch(ctx, built, ctx.scale(60, 600))
     ES.stream_micro(ctx, built, ctx.scale(8, 80))
     ES.stream_sample1(ctx, built, ctx.scale(8, 100))
+    ES.stream_sampleN(ctx, built, ctx.scale(10, 120))
 
 
 def search(ctx, seeds):
